@@ -99,8 +99,8 @@ theorem clockInv_step : StepInvariant (fun _ => True) ClockInv where
         · exact ClockInv.frame rfl rfl (Nat.le_refl _) rfl key
         · exact key
   draw := fun s h => ClockInv.frame (s := s) rfl rfl (Nat.le_of_lt (hlcNow_gt _ _)) rfl h
-  restart := fun s p h => reopen_clockInv s p h
-  purge := fun s h => by
+  restart := fun s p _ h => reopen_clockInv s p h
+  purge := fun s _ h => by
     obtain ⟨h1, h2, h3, h4⟩ := h
     refine ⟨h1, h2, h3, ?_⟩
     intro p hp
